@@ -4,7 +4,7 @@ restricted per opcode; the oracle is the repository's own specification (docs/sr
 import os, re
 from .mirutil import *
 from .mirsym import Poly, Sup, P, poly_str
-from . import opmodel, docspec
+from . import opmodel, docspec, extract
 from .airmodel import AirModel
 
 LEVEL = "other"
@@ -646,6 +646,99 @@ def r6_chiplets(ctx, F):
             ctx.violation("chiplet-selector|%d" % i, "air/src/constraints/chiplets/mod.rs", "chiplet selector constraint %s missing" % V.pretty(w))
 
 
+def r6b_bitwise_docs(ctx, F):
+    """every constraint formula of docs/src/design/chiplets/bitwise.md (selector, input decomposition incl. the binary checks of
+    all eight bit columns, output aggregation) is present, up to a unit, among the bitwise chiplet's transition constraints with
+    the chiplet flag set"""
+    from . import decdocs
+    path = os.path.join(extract.REPO, "docs/src/design/chiplets/bitwise.md")
+    txt = open(path).read()
+    V = AirView(F)
+    lo, hi = V.R["ranges"]["chiplets"]
+    slots = V.by_name["Noop"][lo:hi]
+    ch = F.const(r"^miden_air::trace::CHIPLETS_OFFSET$")
+    n_sel = F.const(r"^miden_air::constraints::chiplets::NUM_CONSTRAINTS$")
+    n_h = F.const(r"^miden_air::constraints::chiplets::hasher::NUM_CONSTRAINTS$")
+    n_b = F.const(r"^miden_air::constraints::chiplets::bitwise::NUM_CONSTRAINTS$")
+    nper = F.const(r"^miden_air::constraints::chiplets::hasher::NUM_PERIODIC_COLUMNS$")
+    # the chiplet flag of the bitwise section is s0 * (1 - s1') ; both forms of the second selector are set to 0
+    group = [p.subst({"c%d" % ch: 1, "c%d" % (ch + 1): 0, "n%d" % (ch + 1): 0}) for p in slots[n_sel + n_h:n_sel + n_h + n_b] if isinstance(p, Poly)]
+    rng = lambda name: F.const(r"^miden_air::trace::chiplets::%s$" % name)
+    col = {"s": rng("BITWISE_SELECTOR_COL_IDX"), "a": rng("BITWISE_A_COL_IDX"), "b": rng("BITWISE_B_COL_IDX"),
+           "z_p": rng("BITWISE_PREV_OUTPUT_COL_IDX"), "z": rng("BITWISE_OUTPUT_COL_IDX")}
+    a0, b0 = rng("BITWISE_A_COL_RANGE")["fields"][0], rng("BITWISE_B_COL_RANGE")["fields"][0]
+    for i in range(4):
+        col["a_%d" % i] = a0 + i
+        col["b_%d" % i] = b0 + i
+
+    def to_poly(expr):
+        e = expr
+        e = re.sub(r"\\text\s*\{[^}]*\}\s*=\s*\d+", "", e)
+        e = e.replace("\\left", "").replace("\\right", "")
+        e = decdocs.expand_sums(e)
+        e = e.replace("\\cdot", "*")
+        env = {}
+
+        def name(m):
+            base, p1, sub, p2 = m.group(1), m.group(2), m.group(3), m.group(4)
+            key = base + ("_" + sub if sub is not None else "")
+            primed = bool(p1 or p2)
+            if base == "k":
+                v = Poly.var("p%d" % (nper + int(sub)))
+            elif key in col:
+                v = Poly.var(("n" if primed else "c") + str(col[key]))
+            else:
+                raise ValueError("unknown name %s" % key)
+            ident = "V%d" % len(env)
+            env[ident] = v
+            return ident
+        e = re.sub(r"(?<![A-Za-z\\])([abzsk])('?)(?:_\{?([0-9p])\}?)?('?)", name, e)
+        e = re.sub(r"(V\d+)\s*\^\s*2", r"(\1*\1)", e)
+        e = re.sub(r"2\s*\^\s*(\d+)", lambda m: str(2 ** int(m.group(1))), e)
+        e = re.sub(r"(?<![V\d])(\d+)", r"K(\1)", e)
+        env["K"] = Poly.const
+        if not re.match(r"^[\sV\dK()+\-*]+$", e):
+            raise ValueError("unsupported formula text %r" % e)
+        return eval(e, {"__builtins__": {}}, env)
+
+    docs = []
+    for m in re.finditer(r"^> \$\$\n(.*?)\n\$\$", txt, re.S | re.M):
+        body = m.group(1).strip()
+        if "= 0" not in body or "\\prod" in body or "alpha" in body:
+            continue
+        lhs = body.split("= 0")[0]
+        line = txt[:m.start()].count("\n") + 2
+        insts = [lhs.replace("_i", "_%d" % i) for i in range(4)] if re.search(r"[ab]_i", lhs) and "\\sum" not in lhs else [lhs]
+        for f in insts:
+            docs.append((line, f.strip()))
+    ctx.floor("documented-bitwise-constraints", len(docs), 15)
+    parsed = []
+    for line, f in docs:
+        try:
+            parsed.append((line, f, to_poly(f)))
+        except (ValueError, SyntaxError, TypeError, NameError) as e:
+            ctx.inst(key="bitwise-doc|%s" % re.sub(r"\s+", "", f)[:60], nontrivial=True)
+            ctx.violation("UNANALYSABLE|bitwise-doc|%s" % re.sub(r"\s+", "", f)[:40], "docs/src/design/chiplets/bitwise.md:%d" % line, "cannot read the formula: %s" % str(e)[:160])
+    # selector-gated alternatives (1 - s) * X_and and s * X_xor may be implemented as their sum: with s binary (a documented
+    # constraint itself) the sum vanishes iff the active alternative does
+    sel = Poly.var("c%d" % col["s"])
+    unmatched = [(l_, f_, w_) for l_, f_, w_ in parsed if not any(unit_multiple(p, w_) for p in group)]
+    merged = set()
+    if len(unmatched) >= 2:
+        tot = Poly()
+        for l_, f_, w_ in unmatched:
+            tot = tot + w_
+        if all(sel.vars() <= w_.vars() for l_, f_, w_ in unmatched) and any(unit_multiple(p, tot) for p in group):
+            merged = {f_ for l_, f_, w_ in unmatched}
+    for line, f, want in parsed:
+        ctx.inst(key="bitwise-doc|%s" % re.sub(r"\s+", "", f)[:60], nontrivial=True)
+        ok = f in merged or any(unit_multiple(p, want) for p in group)
+        ctx.oblig(ok)
+        if not ok:
+            ctx.violation("bitwise-doc-constraint|%s" % re.sub(r"\s+", "", f)[:60], "docs/src/design/chiplets/bitwise.md:%d" % line,
+                          "the documented bitwise chiplet constraint %s = 0 is not among the chiplet's transition constraints (up to a unit): %s" % (f, V.pretty(want)[:200]))
+
+
 def run(ctx, F):
     ctx.trusted += ["rustc MIR (nightly) via mirfacts", "mirsym abstract interpreter (exact polynomials over GF(2^64-2^32+1))",
                     "docs/src/design as the specification oracle (parsed at run time)", "frozen tables CONDITIONAL/EXEMPT in vlib/rules_c04.py"]
@@ -661,4 +754,5 @@ def run(ctx, F):
     ctx.run_rule("C04-R2c", "operations whose specification demands a binary top element have s0^2-s0 active", r2c_current_row, F)
     ctx.run_rule("C04-R4", "stack depth / overflow bookkeeping constraints in canonical form per shift class", r4_overflow, F)
     ctx.run_rule("C04-R5", "range-checker transition roots {0,3^0..3^7} and the b_range LogUp identity", r5_range, F)
+    ctx.run_rule("C04-R6b", "bitwise chiplet: every documented constraint (design/chiplets/bitwise.md), including the binary checks of all eight decomposition columns, is present among the chiplet's constraints", r6b_bitwise_docs, F)
     ctx.run_rule("C04-R6", "chiplet constraint slots gated by their selectors; listed next-row columns occur; selector constraints exact", r6_chiplets, F)
